@@ -1020,7 +1020,8 @@ Proof.
     + intros q Hq Hr. rewrite le_enc_length in Hr. exfalso. apply (Hq (b, off)); auto.
   - (* store plain bytes *)
     destruct ((b <? length (abufs A))%nat && (off + length x <=? length (nth b (abufs A) []))%nat) eqn:E1; [|discriminate].
-    match type of Hs with (if negb (forallb ?f _) then _ else _) = _ => destruct (forallb f (arelocs A)) eqn:E2 end; [|discriminate].
+    destruct (forallb (fun s : slot => negb (fst s =? b)%nat || (snd s + 8 <=? off)%nat
+                                       || (off + length x <=? snd s)%nat) (arelocs A)) eqn:E2; [|discriminate].
     simpl in Hs. injection Hs as <-.
     apply andb_true_iff in E1 as [E1 E1']. apply Nat.ltb_lt in E1. apply Nat.leb_le in E1'.
     rewrite R2 in E1. rewrite R3 in E1'. rewrite R1 in E2. rewrite forallb_forall in E2.
